@@ -696,6 +696,12 @@ Definition sb_containers_clean (F : sb_facts) : bool :=
 Definition sb_classes_covered (F : sb_facts) : bool :=
   forallb (fun p => sb_mem (fst p) sb_known_classes) (sbf_exprs F) &&
   forallb (fun c => match sb_assoc c (sbf_exprs F) with Some _ => true | None => false end) sb_known_classes.
+(* what the property names explicitly: passwords and the ticket salt must be no_user_view *)
+Definition sb_must_hide : list (sb_name * sb_name) := Eval vm_compute in
+  map (fun p => (sb_enc (fst p), sb_enc (snd p)))
+      [("ApiUser", "password"); ("ApiUser", "password_hash"); ("ApiListener", "ticket_salt")]%string.
+Definition sb_secrets_hidden (F : sb_facts) : bool :=
+  forallb (fun p => sb_is_hidden F (fst p) (snd p)) sb_must_hide.
 Definition sb_no_hidden_global (F : sb_facts) (s : sb_st) : bool :=
   forallb (fun g => match sb_assoc g (nth 0 (sbs_shared s) []) with Some _ => false | None => true end)
           (sbf_hidden_globals F).
